@@ -24,6 +24,9 @@
 //     load the new stack pointer, pop registers from the new stack
 //     and returns to new caller.
 //
+//     The MXCSR and the x87 control word (callee-saved by the ABI) are saved
+//     in and restored from the slot of the (dead) RDX value.
+//
 //     RDI is set to be the parameter for the function to be called.
 //     The first time RDI is the first parameter of the trampoline.
 //     Otherwise it is simply discarded.
@@ -67,8 +70,12 @@
         "pushq %r13\n\t"                                                      \
         "pushq %r14\n\t"                                                      \
         "pushq %r15\n\t"                                                      \
+        "stmxcsr 32(%rsp)\n\t"                                                \
+        "fnstcw 36(%rsp)\n\t"                                                 \
         "movq  %rsp, (%rdi)\n\t"                                              \
         "movq  %rsi, %rsp\n\t"                                                \
+        "ldmxcsr 32(%rsp)\n\t"                                                \
+        "fldcw 36(%rsp)\n\t"                                                  \
         "popq  %r15\n\t"                                                      \
         "popq  %r14\n\t"                                                      \
         "popq  %r13\n\t"                                                      \
